@@ -2736,10 +2736,13 @@ impl Archive {
                     }
                 }
             }
-            Err(_) => {
-                // Not a weak signature
-                log::debug!("Signature file found but not a valid weak signature format");
-                Ok(SignatureStatus::None)
+            Err(e) => {
+                // The (signature) file exists but holds no usable weak signature
+                // (too short, or the signature bytes are zeroed). That is an invalid
+                // signature, not an unsigned archive: `None` is reserved for archives
+                // without a (signature) file.
+                log::warn!("Signature file found but not a valid weak signature: {e}");
+                Ok(SignatureStatus::WeakInvalid)
             }
         }
     }
